@@ -5,7 +5,7 @@ TITLE = 'Annotations round-trip in order and seeking by timestamp omits nothing'
 LEVEL_TEXT = ('bounded symbolic verification of the real annotation index builder (wr_ts.c) at the file-layer seam: every annotation is listed exactly once, in write order, in the '
               'level-1 indices, INDEX/SUMMARY pairs are adjacent, upper-level entries reference the indices below with their first timestamp; seek completeness of the real jls_core_ts_seek over such a tree with symbolic timestamps and seek time')
 TRUSTED = ['cbmc 6.11', 'recording sinks at jls_core_wr_index / jls_core_wr_summary / jls_raw_chunk_tell', 'decoder clauses from format.h in harness/c11_ts.c']
-OUTSIDE = ['the iteration loop of jls_core_annotations after the seek (follows item_next; callback stop) and the record payload round-trip',
+OUTSIDE = ['the annotation record payload round-trip (type/group/y/storage/payload bytes through jls_wr_annotation)',
            'entry counts other than the listed instances, decimate factors other than 2/3']
 EXPLANATION = ('O1: exactly N annotations (one instance per N) with symbolic non-decreasing timestamps (runs of equal timestamps included), symbolic type/group, decimate factor 2 or 3: the '
                'chunk sequence emitted by jls_wr_ts_anno + jls_wr_ts_close is decoded in the harness; a symbolic watched INDEX/SUMMARY pair and entry are compared with the written sequence.')
@@ -28,4 +28,15 @@ def obligations(tier):
                           'nothing with timestamp >= t lies before the position found, at most one delivered entry is earlier' % (n, df),
                      bound='%d entries, decimate factor %d, timestamp steps < 1000' % (n, df),
                      assumes=['the index tree satisfies the structure the builder produces (decided in O1_index_construction); chunks are served at the jls_core_rd_chunk seam']))
+    for n, df in ([(5, 2)] if tier == 'quick' else [(3, 2), (5, 2), (7, 2)]):
+        o.append(Obl('O2_iterate_D%d_N%d' % (df, n), 'c11_seek.c', units=['core.c', 'reader.c', 'buffer.c'], seams={'core.c': ['jls_core_rd_chunk']},
+                     defines=['JLS_VERIF_SIGNAL_COUNT=2', 'JLS_VERIF_SOURCE_COUNT=2', 'JLS_VERIF_FSR_BUFFER_U64=2', 'JLS_VERIF_BUF_DEFAULT_SIZE=128', 'JLS_VERIF_BUF_STRING_SIZE=16',
+                              'N_FIXED=%d' % n, 'DF=%d' % df, 'MODE_ITERATE=1'],
+                     unwind=18, unwind_text=[('harness', r'i < N_FIXED', n + 2), ('jls_core_rd_chunk', r'c < MAXC', 12), ('jls_core_rd_chunk', r'i < N_FIXED', n + 2),
+                                             ('jls_core_ts_seek', r'for \\(; ; \\+\\+idx\\)', df + 2), ('jls_core_annotations', r'while \\(pos\\)', n + 2)],
+                     typed_calloc=True, timeout=900 if tier == 'quick' else 2400, backend=PORTFOLIO, objbits=10,
+                     desc='jls_core_annotations (reader.c) = seek + iteration over %d annotations (decimate %d): symbolic timestamps, first sample id, request time and stop count: '
+                          'contiguous tail in write order, nothing >= t omitted, at most one earlier, timestamps relative to the first sample id, stop honoured' % (n, df),
+                     bound='%d annotations, decimate factor %d' % (n, df),
+                     assumes=['index tree and data chunk list as the writer builds them, served at the jls_core_rd_chunk seam']))
     return o
